@@ -212,6 +212,8 @@ pub enum Differ {
     ExtraHeader,
     MissingHeader(usize),
     Body,
+    /// one header name with two values on both sides; only the second value differs
+    LaterValue,
 }
 
 pub struct C11Check;
@@ -383,10 +385,22 @@ fn trial_on_thread(steps: Vec<DStep>, hash_seed: u64, skew_ns: i64, junk: usize)
 fn build_response(status: u16, headers: &[(String, String)], body: &[u8]) -> Option<crux_http::Response<Vec<u8>>> {
     let st = crux_http::http::StatusCode::try_from(status).ok()?;
     let mut b = crux_http::testing::ResponseBuilder::with_status(st).body(body.to_vec());
+    let mut seen: Vec<&str> = vec![];
+    let mut later: Vec<(&str, &str)> = vec![];
     for (n, v) in headers {
-        b = b.header(n.as_str(), v.as_str());
+        if seen.contains(&n.as_str()) {
+            // a repeated name carries several values, in order
+            later.push((n.as_str(), v.as_str()));
+        } else {
+            seen.push(n.as_str());
+            b = b.header(n.as_str(), v.as_str());
+        }
     }
-    Some(b.build())
+    let mut r = b.build();
+    for (n, v) in later {
+        r.append_header(n, v);
+    }
+    Some(r)
 }
 
 fn gen_header_set(rng: &mut Rng, n: usize) -> Vec<(String, String)> {
@@ -495,6 +509,7 @@ impl Check for C11Check {
                 5 if nh > 0 => Differ::HeaderValue(rng.usize_below(nh)),
                 6 => Differ::ExtraHeader,
                 7 if nh > 0 => Differ::MissingHeader(rng.usize_below(nh)),
+                8 if rng.chance(1, 2) => Differ::LaterValue,
                 _ => Differ::Body,
             };
             let nb = rng.below(6) as usize;
@@ -556,9 +571,13 @@ impl Check for C11Check {
         }
         // oracle 2: equality of the values handed to apps and tests
         for c in &s.eq_cases {
-            let Some(x) = build_response(c.status, &c.headers, &c.body) else { continue };
-            let mut h2 = c.headers.clone();
-            Rng::new(c.perm).shuffle(&mut h2);
+            let later = c.differ == Differ::LaterValue;
+            let repeated: Vec<(String, String)> = vec![("set-cookie".into(), "a=1".into()), ("set-cookie".into(), "b=2".into())];
+            let Some(x) = build_response(c.status, if later { &repeated } else { &c.headers }, &c.body) else { continue };
+            let mut h2 = if later { repeated.clone() } else { c.headers.clone() };
+            if !later {
+                Rng::new(c.perm).shuffle(&mut h2);
+            }
             let mut status = c.status;
             let mut body = c.body.clone();
             match &c.differ {
@@ -582,6 +601,7 @@ impl Check for C11Check {
                     h2.retain(|h| h.0 != t);
                 }
                 Differ::Body => body.push(1),
+                Differ::LaterValue => h2[1].1 = "b=3".into(),
             }
             // a fresh thread gives the second instance its own hash keys
             crate::runner::set_hash_seed(c.perm);
@@ -735,6 +755,7 @@ fn differ_kind(d: &Differ) -> &'static str {
         Differ::ExtraHeader => "extra_header",
         Differ::MissingHeader(_) => "missing_header",
         Differ::Body => "body",
+        Differ::LaterValue => "later_value_of_a_repeated_header",
     }
 }
 
